@@ -35,6 +35,8 @@ SPECIAL_HEADERS = {
     "multi_abi.h": "void plain(int);\nvoid __attribute__((stdcall)) std_call(int);\nvoid __attribute__((fastcall)) fast_call(int);\n"
                    "void plain2(long);\nvoid __attribute__((stdcall)) std_call2(long);\nint __attribute__((vectorcall)) vec_call(int);\n"
                    "void __attribute__((ms_abi)) ms(int);\nvoid plain3(char);\n",
+    "sys_c.h": "#include <stdlib.h>\n#include <stdint.h>\nstruct SysC { size_t n; uint16_t w; };\n",
+    "sys_cpp.hpp": "#include <cstdlib>\n#include <cstdint>\nstruct SysCpp { std::size_t n; std::uint8_t b; };\n",
     "static_fn_small.h": "static inline int one(void) { return 1; }\n",
     "enums.h": "enum Color { RED, GREEN = 5, BLUE };\nenum Cold { ICE, SNOW };\nenum Other { X = 1, Y = 2 };\nstruct HasEnums { enum Color c; enum Cold d; enum Other o; };\n",
     "syntax_error.h": "struct Broken { int a; \nint oops(;\n",
@@ -83,6 +85,10 @@ def build_pool(seed, scratch, tier):
                                           "--newtype-enum", "C.*"])
     add("type-options-overlap", "many_types.hpp", ["--opaque-type", "W1.*", "--blocklist-type", "W1", "--no-copy", "S.*", "--no-debug", "S1.*",
                                                    "--must-use-type", "S.*", "--", "-x", "c++", "-std=c++14"])
+    # system headers: the include-path detection result of one generation must not leak into the next
+    add("sys-c", "sys_c.h", [])
+    add("sys-cpp", "sys_cpp.hpp", ["--", "-std=c++14"])
+    add("sys-cpp-no-detect", "sys_cpp.hpp", ["--no-include-path-detection", "--", "-x", "c++", "-std=c++14"])
     add("macros", "macros.h", [])
     add("macros-fallback-own-dir", "macros.h", ["--clang-macro-fallback", "--clang-macro-fallback-build-dir", "@OUT@"], outdir="@INST@")
     add("macros2-fallback-own-dir", "macros2.h", ["--clang-macro-fallback", "--clang-macro-fallback-build-dir", "@OUT@"], outdir="@INST@")
